@@ -1,6 +1,8 @@
 (* Generic lemmas for SoloRun.v (a call run alone on the small-step machine M1 is the big-step function):
    list updates, the all-or-nothing multi-CAS (`cas_all` / `toggle_rows`) as a block fill, the narrow-lane
-   bit identities of `Bitfield::toggle`, powers of two and index arithmetic.  Stdlib only. *)
+   bit identities of `Bitfield::toggle`, powers of two and index arithmetic; then the solo-run machinery:
+   `solo_fuel`, the states `st l P H t x`, the step closure `runs`, and the generic all-or-nothing multi-CAS
+   loop with rollback (`mc_run`).  Stdlib only. *)
 From Coq Require Import PeanoNat ZArith ZifyN ZifyBool.
 From LLF Require Import Base BitLemmas Row RowProofs Bitfield Lower Spec LowerMachine.
 
@@ -274,3 +276,169 @@ Proof.
   remember (R / n) as k eqn:Ek. clear Ek. subst R.
   rewrite BitLemmas.mod_mod_mul; auto. intros ->. lia.
 Qed.
+
+(* ====== state, runs, the generic multi-CAS loop ====== *)
+
+
+Fixpoint solo_fuel (g : geom) (n : nat) (s : mstate) (t : nat) (c : call) : mstate :=
+  match n with
+  | O => s
+  | S n' => let s' := fst (mstep g s t c) in
+            match nth_error (ms_pool s') t with
+            | Some (TRun _ _) => solo_fuel g n' s' t c
+            | _ => s'
+            end
+  end.
+
+Definition mk (l : lower) (P : list thr) (H : list (N * nat)) : mstate :=
+  {| ms_frames := frames l; ms_ents := ents l; ms_bfs := bfs l; ms_pool := P; ms_held := H |}.
+
+(* the state with memory l in which thread t is x *)
+Definition st (l : lower) (P : list thr) (H : list (N * nat)) (t : nat) (x : thr) : mstate :=
+  mk l (upd P t x) H.
+
+Definition fin (c : call) (l : lower) (P : list thr) (H : list (N * nat)) (t : nat) (r : res N) : mstate :=
+  st l P (match c, r with
+          | CGet _ o, Ok f => (f, o) :: H
+          | CGetAt _ o, Ok f => (f, o) :: H
+          | _, _ => H
+          end) t (TIdle (Some r)).
+
+  (* ----- N / nat index conversions ----- *)
+Lemma nn_add_nat x q : nn (x + N.of_nat q) = (nn x + q)%nat. Proof. unfold nn. lia. Qed.
+Lemma ltb_succ_nat q n : (N.of_nat q + 1 <? n) = Nat.ltb (S q) (nn n).
+Proof. unfold nn. destruct (N.ltb_spec (N.of_nat q + 1) n), (Nat.ltb_spec (S q) (N.to_nat n)); auto; lia. Qed.
+Lemma of_nat_S_eqb q : (N.of_nat (S q) =? 0) = false. Proof. apply N.eqb_neq. lia. Qed.
+Lemma of_nat_S_pred q : N.of_nat (S q) - 1 = N.of_nat q. Proof. lia. Qed.
+Lemma of_nat_S_add q : N.of_nat q + 1 = N.of_nat (S q). Proof. lia. Qed.
+
+
+Section Solo.
+  Variable g : geom.
+  Hypothesis wf : wf_geom g.
+  Variable P : list thr.
+  Variable t : nat.
+  Hypothesis Ht : (t < length P)%nat.
+  Variable c0 : call.
+
+  Lemma pool_st l H x : nth_error (ms_pool (st l P H t x)) t = Some x.
+  Proof. cbn [st mk ms_pool]. apply nth_error_upd_same, Ht. Qed.
+  Lemma goto_st l H x c p : goto (st l P H t x) t c p = st l P H t (TRun c p).
+  Proof. unfold goto, set_thr, st, mk. cbn [ms_frames ms_ents ms_bfs ms_pool ms_held]. rewrite sr_upd_upd. reflexivity. Qed.
+  Lemma crash_st l H x c y : crash (st l P H t x) t c y = st l P H t (TPanic y c).
+  Proof. unfold crash, set_thr, st, mk. cbn [ms_frames ms_ents ms_bfs ms_pool ms_held]. rewrite sr_upd_upd. reflexivity. Qed.
+  Lemma finish_st l H x c r : finish (st l P H t x) t c r = fin c l P H t r.
+  Proof. unfold finish, fin, set_held, set_thr, st, mk. cbn [ms_frames ms_ents ms_bfs ms_pool ms_held]. rewrite sr_upd_upd.
+    destruct c, r; reflexivity. Qed.
+  Lemma rd_ent_st l H x h : rd_ent (st l P H t x) h = ent l h.
+  Proof. reflexivity. Qed.
+  Lemma wr_ent_st l H x h v : wr_ent (st l P H t x) h v = st (set_ent l h v) P H t x.
+  Proof. reflexivity. Qed.
+  Definition row (l : lower) (h r : N) : option N :=
+    match bf l h with Some rows => nth_error rows (nn r) | None => None end.
+  Lemma rd_row_st l H x h r : rd_row (st l P H t x) h r = row l h r.
+  Proof. reflexivity. Qed.
+  Lemma wr_row_st l H x h r v rows : bf l h = Some rows ->
+    wr_row (st l P H t x) h r v = st (set_bf l h (upd rows (nn r) v)) P H t x.
+  Proof. intros E. unfold wr_row, st, mk. cbn [ms_bfs]. unfold bf in E. rewrite E. reflexivity. Qed.
+
+
+  Definition with_ents (l : lower) (es : list N) : lower := {| frames := frames l; bfs := bfs l; ents := es |}.
+  Lemma with_ents_id l : with_ents l (ents l) = l. Proof. destruct l; reflexivity. Qed.
+  Lemma set_bf_id l h rows : bf l h = Some rows -> set_bf l h rows = l.
+  Proof. intros E. destruct l as [f b e]. unfold set_bf, bf in *. cbn [frames Lower.bfs ents] in *. rewrite sr_upd_same; auto. Qed.
+  Lemma bf_set_bf l h rows rows' : bf l h = Some rows -> bf (set_bf l h rows') h = Some rows'.
+  Proof. intros E. unfold bf, set_bf in *. cbn [Lower.bfs]. apply nth_error_upd_same. eapply sr_some_lt, E. Qed.
+  Lemma set_bf_set_bf l h a b : set_bf (set_bf l h a) h b = set_bf l h b.
+  Proof. unfold set_bf. cbn [frames Lower.bfs ents]. rewrite sr_upd_upd. reflexivity. Qed.
+
+  (* ----- runs ----- *)
+  Inductive runs : mstate -> mstate -> Prop :=
+  | runs_refl s : runs s s
+  | runs_step s c p s' : nth_error (ms_pool s) t = Some (TRun c p) -> runs (fst (mstep g s t c0)) s' -> runs s s'.
+
+  Lemma runs_trans a b c : runs a b -> runs b c -> runs a c.
+  Proof. induction 1; auto. intros. eapply runs_step; eauto. Qed.
+  Lemma runs_step1 s c p s1 s' : nth_error (ms_pool s) t = Some (TRun c p) -> fst (mstep g s t c0) = s1 -> runs s1 s' -> runs s s'.
+  Proof. intros. subst. eapply runs_step; eauto. Qed.
+
+  Definition Post (c : call) (H : list (N * nat)) (rl : res N * lower) (s' : mstate) : Prop :=
+    match fst rl with
+    | Panic x => ms_pool s' = upd P t (TPanic x c)
+    | r => s' = fin c (snd rl) P H t r
+    end.
+  Definition Runs (c : call) (H : list (N * nat)) (s : mstate) (rl : res N * lower) : Prop :=
+    exists s', runs s s' /\ Post c H rl s'.
+
+  Lemma Runs_runs c H s s1 rl : runs s s1 -> Runs c H s1 rl -> Runs c H s rl.
+  Proof. intros R (s' & R' & Q). exists s'. split; auto. eapply runs_trans; eauto. Qed.
+  Lemma Runs_step c H s c' p s1 rl : nth_error (ms_pool s) t = Some (TRun c' p) -> fst (mstep g s t c0) = s1 ->
+    Runs c H s1 rl -> Runs c H s rl.
+  Proof. intros E1 E2 (s' & R' & Q). exists s'. split; auto. eapply runs_step1; eauto. Qed.
+  Lemma Runs_ok c H l f : Runs c H (fin c l P H t (Ok f)) (Ok f, l).
+  Proof. eexists. split; [apply runs_refl|]. reflexivity. Qed.
+  Lemma Runs_err c H l e : Runs c H (fin c l P H t (Err e)) (Err e, l).
+  Proof. eexists. split; [apply runs_refl|]. reflexivity. Qed.
+  Lemma Runs_panic c H l l' x : Runs c H (st l P H t (TPanic x c)) (Panic x, l').
+  Proof. eexists. split; [apply runs_refl|]. reflexivity. Qed.
+
+  (* ----- the generic all-or-nothing multi-CAS loop with rollback ----- *)
+  Section MultiCas.
+    Variables (a n : nat) (cur new : N).
+    Variables (F U : nat -> list N -> mstate) (Sx Fl : list N -> mstate).
+    Hypothesis F_run : forall q es, exists c p, nth_error (ms_pool (F q es)) t = Some (TRun c p).
+    Hypothesis U_run : forall q es, exists c p, nth_error (ms_pool (U q es)) t = Some (TRun c p).
+    Hypothesis F_step : forall q es e, (q < n)%nat -> nth_error es (a + q) = Some e ->
+      fst (mstep g (F q es) t c0) =
+      if e =? cur then (if Nat.ltb (S q) n then F (S q) (upd es (a + q) new) else Sx (upd es (a + q) new))
+      else match q with O => Fl es | S q' => U q' es end.
+    Hypothesis U_step : forall q es, nth_error es (a + q) = Some new ->
+      fst (mstep g (U q es) t c0) =
+      match q with O => Fl (upd es (a + q) cur) | S q' => U q' (upd es (a + q) cur) end.
+
+    Lemma mc_undo es : forall q, (a + S q <= length es)%nat -> blk_is es a (S q) cur ->
+      runs (U q (fill es a (S q) new)) (Fl es).
+    Proof.
+      induction q; intros Hl Hb.
+      - destruct (U_run O (fill es a 1 new)) as (c & p & E).
+        eapply runs_step1; [exact E| |apply runs_refl].
+        rewrite U_step by (apply fill_in; lia). rewrite (fill_unsnoc es a 0) by (apply Hb; lia). reflexivity.
+      - destruct (U_run (S q) (fill es a (S (S q)) new)) as (c & p & E).
+        eapply runs_step1; [exact E| |apply IHq].
+        + rewrite U_step by (apply fill_in; lia). rewrite (fill_unsnoc es a (S q)) by (apply Hb; lia). reflexivity.
+        + lia.
+        + intros i Hi. apply Hb. lia.
+    Qed.
+
+    Lemma mc_fwd es : (a + n <= length es)%nat -> forall m q, (q + S m = n)%nat -> blk_is es a q cur ->
+      runs (F q (fill es a q new))
+           (match cas_all es a n cur new with Some es' => Sx es' | None => Fl es end).
+    Proof.
+      intros Hl. induction m; intros q Hq Hb.
+      - destruct (F_run q (fill es a q new)) as (c & p & E).
+        destruct (nth_error es (a + q)) as [e|] eqn:He; [|apply nth_error_None in He; lia].
+        eapply runs_step1; [exact E|rewrite (F_step q _ e) by (try rewrite fill_out by lia; auto; lia); reflexivity|].
+        destruct (N.eqb_spec e cur) as [->|Hne].
+        + destruct (Nat.ltb_spec (S q) n); [lia|]. rewrite fill_snoc.
+          rewrite cas_all_fill. { replace n with (S q) by lia. apply runs_refl. }
+          intros i Hi. destruct (Nat.eq_dec i (a + q)) as [->|]; auto. apply Hb. lia.
+        + rewrite (cas_all_fail es a n cur new q e) by (auto; lia).
+          destruct q; [apply runs_refl|]. apply mc_undo; auto. lia.
+      - destruct (F_run q (fill es a q new)) as (c & p & E).
+        destruct (nth_error es (a + q)) as [e|] eqn:He; [|apply nth_error_None in He; lia].
+        eapply runs_step1; [exact E|rewrite (F_step q _ e) by (try rewrite fill_out by lia; auto; lia); reflexivity|].
+        destruct (N.eqb_spec e cur) as [->|Hne].
+        + destruct (Nat.ltb_spec (S q) n); [|lia]. rewrite fill_snoc. apply IHm; [lia|].
+          intros i Hi. destruct (Nat.eq_dec i (a + q)) as [->|]; auto. apply Hb. lia.
+        + rewrite (cas_all_fail es a n cur new q e) by (auto; lia).
+          destruct q; [apply runs_refl|]. apply mc_undo; auto. lia.
+    Qed.
+
+    Lemma mc_run es : (a + n <= length es)%nat -> (0 < n)%nat ->
+      runs (F O es) (match cas_all es a n cur new with Some es' => Sx es' | None => Fl es end).
+    Proof.
+      intros Hl Hn. destruct n as [|m] eqn:En; [lia|]. rewrite <- En in *.
+      apply (mc_fwd es Hl m O); [lia|]. intros i Hi. lia.
+    Qed.
+  End MultiCas.
+End Solo.
